@@ -17,7 +17,7 @@ from ref import affine as af
 
 PROPERTY = "C02"
 LEVEL = "model_checking"
-RULE = ("every history of <= depth events (X*M, X*=M, X@M, X@=M, reify(), abs(), Path(shape); M from a 17-matrix alphabet) "
+RULE = ("every history of <= depth events (X*M, X*=M, X@M, X@=M, reify(), abs(), Path(shape); M from a 17-matrix alphabet; once more with the live object and its own segments read before and after every event) "
         "applied to every object of the segment / path / shape alphabet x magnitudes {1e-3,1,1e5}; model state = "
         "accumulated matrix; a transition = one event, after which all sampled points are compared with the matrix "
         "image of the pristine object's points.  Non-trivial: the history contains a non-identity matrix; distinct = "
